@@ -122,7 +122,15 @@ def _check_own(ctx):
     # A new one means some state or input that used to be served is now refused with Err.
     fresh = {}
     n_err_calls = 0
-    for fn in closure.values():
+    # the refusal inventory also covers the read-only statistics, the flush / sync path and the provided (default)
+    # methods of the public traits: a "sanity check" that returns Err there refuses a legitimate state just the same
+    roots2 = list(roots)
+    roots2 += [f for f in prog.fns.values() if f.crate == "abyssiniandb" and f.impl_self_adt == INNER and
+               ((f.impl_trait or "").endswith(("CheckFileDbMap", "DbXxxBase")))]
+    roots2 += [f for f in prog.fns.values() if f.crate == "abyssiniandb" and f.trait_default_of is not None]
+    closure2 = reachable_fns(prog, roots2, crates=("abyssiniandb",))
+    ctx.floor("refusal", "root functions (data path, statistics, flush / sync, provided trait methods)", len(roots2), 45)
+    for fn in closure2.values():
         for b, t in fn.calls():
             if fn.is_cleanup(b):
                 continue
@@ -147,7 +155,7 @@ def _check_own(ctx):
         else:
             ctx.fail("refusal", name, "%s constructs a new io::Error on the data path: a state or input that was served before is now refused" % fn.id,
                      where="; ".join(where(f, bb) for f, bb in sites))
-    ctx.ok("refusal", "inventory", "%d io::Error constructor site(s) in %d data-path functions (%d calls on io::Error seen)" % (sum(len(v) for v in fresh.values()), len(closure), n_err_calls))
+    ctx.ok("refusal", "inventory", "%d io::Error constructor site(s) in %d functions reachable from %d roots (%d calls on io::Error seen)" % (sum(len(v) for v in fresh.values()), len(closure2), len(roots2), n_err_calls))
     pp_fresh = [1 for f in pp.fns.values() if f.name == "fresh_error" for b, t in f.calls() if (t.get("callee") or "").startswith(("std::io::Error::", "std::io::error::Error::"))]
     ctx.check(bool(pp_fresh), "positive-control", "fresh-error", "the fresh-error detector does not see the planted io::Error::new in the fixture")
 
@@ -318,6 +326,6 @@ def check(ctx):
     from .engine import import_rules
     # chain relinking on delete / overwrite is this property's subject: adopt the link-origin rules
     import_rules(ctx, "c05", {"delete-links", "overwrite-links", "insert-links"})
-    import_rules(ctx, "c06", {"writer-arms"})
+    import_rules(ctx, "c06", {"writer-arms", "free-slot-field-position"})
     import_rules(ctx, "c09", {"sizer-covers-writer", "slot-honoured"})
     import_rules(ctx, "c01", {"op-wiring", "lookup-result"})
